@@ -297,13 +297,19 @@ class EFactory:
             self._sm[which] = [(GaussianSmoother(E.copy(), 0.3) if len(E) > 1 else None) for E in self.energies]
         return self._sm[which]
 
-    def make(self, data, tr=None, inv=None, comment=None, first=False):
+    def make(self, data, tr=None, inv=None, comment=None, first=False, titles="match"):
         from wannierberri.result import EnergyResult
+        kw = {}
+        if titles == "match":
+            kw["E_titles"] = [f"E{i}" for i in range(len(self.es))]
+        elif titles == "short":         # fewer titles than energy axes (the constructor pads them)
+            kw["E_titles"] = [f"E{i}" for i in range(len(self.es) - 1)]
+        # titles == "default": the constructor's default titles
         return EnergyResult(Energies=[E.copy() for E in self.energies], data=np.array(data),
                             smoothers=self.smoothers("first" if first else "operand"),
                             transformTR=real_transform(tr or self.tr), transformInv=real_transform(inv or self.inv),
-                            rank=(self.rank if self.extra else None), E_titles=[f"E{i}" for i in range(len(self.es))],
-                            comment=self.comment if comment is None else comment)
+                            rank=(self.rank if self.extra else None),
+                            comment=self.comment if comment is None else comment, **kw)
 
     def generic(self):
         return gen_data(self.rng, self.shape, self.dt)
@@ -350,6 +356,25 @@ def e_ops(f, B, reps, tier_scalars, full):
         y.add(f.make(B))
         return y
     ops["add_inplace"] = (add_inplace, lambda X: X + B)
+
+    # accumulation idioms: `t += b` and running totals started from the neutral element (void / 0).  The operand x
+    # must come out unchanged (explore() checks it after every operation)
+    def iadd(x):
+        t = copy.deepcopy(x)       # an in-place `+=` is legitimate: give it its own object
+        t.__dict__.pop("dataSmooth", None)
+        t += f.make(B)
+        return t
+
+    def acc_from(start):
+        def g(x):
+            t = start()
+            t += x
+            t += f.make(B)
+            return t
+        return g
+    ops["iadd_b"] = (iadd, lambda X: X + B)
+    ops["acc_from_void"] = (acc_from(VoidResult), lambda X: X + B)
+    ops["acc_from_0"] = (acc_from(lambda: 0), lambda X: X + B)
     for kind, specs in tier_scalars.items():
         for sp in specs:
             c = scalar(sp)
@@ -392,6 +417,9 @@ def explore(cls, ops, x, X, depth, path, getdata, check_meta, desc, counter, iso
                         f"{desc}: sequence {path + [name]} raised {type(e).__name__}: {e}")
         Y = fm(X)
         counter[0] += 1
+        if not isolate and not close(getdata(x), X):
+            return fail(f"{cls}.{name.split('[')[0]}:operand_modified",
+                        f"{desc}: sequence {path + [name]}: the operation changed the data of its operand")
         got = getdata(y)
         if not close(got, Y):
             return fail(f"{cls}.{name.split('[')[0]}:data", f"{desc}: after sequence {path + [name]} data differ from the "
@@ -711,18 +739,20 @@ def run_E_save(case, seed):
     nontrivial = False
     with tempfile.TemporaryDirectory(prefix="agC_c16_") as tmp:
         none_pairs = case.get("none_pairs", False)     # transforms = None : their own 'edge' cases
-        for (tr, inv), comment in itertools.product(pairs_for(rank, full=True), COMMENTS):
+        for (tr, inv), comment, titles in itertools.product(pairs_for(rank, full=True), COMMENTS, ("match", "short", "default")):
             if ("none" in (tr, inv)) != none_pairs:
                 continue
             if comment != COMMENTS[0] and not (tr == inv or (tr, inv) in pairs_for(rank)):
                 continue    # comments x the reduced pair list; the default comment x the full pair product
+            if titles != "match" and not (comment == COMMENTS[0] and tr == inv):
+                continue    # title variants (fewer titles than axes / constructor defaults) x the diagonal pairs
             c = dict(case, tr=tr, inv=inv)
             f = EFactory(c, seed, "save")
             A = f.generic()
-            a = f.make(A, comment=comment)
+            a = f.make(A, comment=comment, titles=titles)
             name = os.path.join(tmp, f"r{n}")
             n += 1
-            desc = f"{f.desc()} comment={comment!r}"
+            desc = f"{f.desc()} comment={comment!r}" + ("" if titles == "match" else f" E_titles={titles}")
             try:
                 a.save(name)
             except Exception as e:
@@ -756,7 +786,7 @@ def run_E_save(case, seed):
                                 f"({tdict(t) if isinstance(t, Transform) else ''}) instead of {spec_dict(want)}")
             if str(b.comment) != comment:
                 return fail("EnergyResult.from_npz:comment", f"{desc}: comment {b.comment!r}")
-            if [str(s) for s in b.E_titles] != [f"E{i}" for i in range(len(f.es))]:
+            if titles == "match" and [str(s) for s in b.E_titles] != [f"E{i}" for i in range(len(f.es))]:
                 return fail("EnergyResult.from_npz:E_titles", f"{desc}: titles {b.E_titles}")
             # the loaded transforms act like the saved ones (a loaded result is used through transform())
             for R, TR in ((np.eye(3), True), (-np.eye(3), False), (np.array([[0., -1, 0], [1, 0, 0], [0, 0, 1]]), False),
@@ -821,6 +851,19 @@ def run_D_seq(case, seed):
     ops["b_reordered_sub"] = (lambda x: make(XB, ["q", "p", "v"]) - x, lambda X: lift(msub)(XB, X))
     ops["void_add"] = (lambda x: VoidResult() + x, lambda X: X)
     ops["radd0"] = (lambda x: sum([x]), lambda X: X)
+
+    def d_iadd(x):
+        t = copy.deepcopy(x)       # an in-place `+=` is legitimate: give it its own object
+        t += make(XB)
+        return t
+
+    def d_acc_void(x):
+        t = VoidResult()
+        t += x
+        t += make(XB)
+        return t
+    ops["iadd_b"] = (d_iadd, lambda X: lift(madd)(X, XB))
+    ops["acc_from_void"] = (d_acc_void, lambda X: lift(madd)(X, XB))
     for sp in (["int", -1], ["float", 0.5]):
         c = scalar(sp)
         ops[f"mul[{sname(sp)}]"] = (lambda x, c=c: x * c, lambda X, c=c: {k: (None if v is None else v * c) for k, v in X.items()})
@@ -843,6 +886,11 @@ def run_D_seq(case, seed):
                 return fail(f"ResultDict.{name.split('[')[0]}:raises:{type(e).__name__}", f"{desc}: sequence {path + [name]}: {e}")
             Y = fm(X)
             counter[0] += 1
+            for k, v in X.items():          # the operand must come out unchanged
+                m = x.results[k]
+                if (v is None) != isinstance(m, VoidResult) or (v is not None and not close(m.data, v)):
+                    return fail(f"ResultDict.{name.split('[')[0]}:operand_modified",
+                                f"{desc}: sequence {path + [name]}: the operation changed member {k} of its operand")
             if type(y) is not ResultDict or set(y.results) != set(Y):
                 return fail(f"ResultDict.{name.split('[')[0]}:keys", f"{desc}: sequence {path + [name]}: {type(y).__name__}")
             for k, v in Y.items():
